@@ -4,7 +4,7 @@
 (*                                                                         *)
 (* This module declares no variables.  Every operator takes the simulation *)
 (* state as a record                                                       *)
-(*     S = [veh, st, bs, req, now]                                         *)
+(*     S = [veh, st, bs, req, now, ord]   (ord: rank of the vehicle ids)   *)
 (* and returns a result record [ok, err, S]: `ok` means the code returned  *)
 (* an updated simulation, `err` distinguishes an error from the silent     *)
 (* (None, None) rejection - both leave the caller's state unchanged, which *)
@@ -26,7 +26,8 @@ CONSTANTS
   FixOOS,        \* TRUE: running out of energy en route runs the old activity's exit (request unassigned, ...)
   FixCB,         \* TRUE: ChargingBase.enter demands co-location with the base
   FixFull,       \* TRUE: charge() on a full vehicle is a no-op instead of an error
-  FixQueuePlug   \* TRUE: queueing / dispatching for a plug type the station lacks (or the vehicle cannot use) is rejected
+  FixQueuePlug,  \* TRUE: queueing / dispatching for a plug type the station lacks (or the vehicle cannot use) is rejected
+  FixFifo        \* TRUE: a queued vehicle cannot be plugged in (by whatever instruction) past vehicles that joined the queue earlier
 
 None == ""
 
@@ -132,6 +133,13 @@ EnterChargingStation(S, v, s, p) ==
   ELSE IF ~Access(S.st[s].fleets, r.fleets) THEN Err(S)
   ELSE IF ~Installed(S, s, p) THEN Err(S)
   ELSE IF S.st[s].pl[p].kind # r.kind THEN Err(S)
+  \* first come, first served also for instructions: S.ord is Python's order of the vehicle ids (the tie-break)
+  ELSE IF FixFifo /\ r.act = "ChargeQueueing" /\ r.tgt = s /\ r.plug = p
+          /\ \E w \in DOMAIN S.veh \ {v} :
+                /\ S.veh[w].act = "ChargeQueueing" /\ S.veh[w].tgt = s /\ S.veh[w].plug = p
+                /\ \/ S.veh[w].enq < r.enq
+                   \/ (S.veh[w].enq = r.enq /\ w \in DOMAIN S.ord /\ v \in DOMAIN S.ord /\ S.ord[w] < S.ord[v])
+       THEN Rej(S)
   ELSE LET C == CheckoutPlug(S, s, p) IN
        IF ~C.ok THEN C
        ELSE Ok(SetAct(C.S, v, Nx("ChargingStation", s, p, 0, None, None, -1)))
